@@ -337,6 +337,11 @@ def check_mac_gate(ck, cx: Ctx):
         ck.ob("C23.mac-gate", fi, r.ast, verbatim, "the compared signature is one field of the input taken verbatim (no case folding, stripping or slicing, so every edit of it is noticed)", construct="verbatim " + q.unparse(m.passed)[:120])
         if m.mode is None:
             raise AnalysisError("%s: MAC input %s is in no recognised shape (argument list or prefix of the parsed buffer)" % (fi.qualname, q.unparse(m.call)))
+        if m.mode == "buffer":
+            ex = exactness(m.buffer, "value")
+            if ex == "unknown":
+                raise AnalysisError("%s: cannot establish that the verified buffer (%s) is the input value" % (fi.qualname, q.unparse(m.buffer)[:60]))
+            ck.ob("C23.mac-gate", fi, r.ast, ex == "exact", "the buffer that is parsed and verified is the input value exactly (no stripping / case folding / replacing before the MAC check)", construct="exact input")
     return macs
 
 
@@ -660,6 +665,33 @@ def _is_version(cx, r, atom):
 # pass-through of parameters (wrapper -> anchored function, entry -> format decoder)
 
 
+NORMALISING = {"strip", "lstrip", "rstrip", "lower", "upper", "casefold", "replace", "translate", "title", "swapcase", "capitalize", "expandtabs", "removeprefix", "removesuffix"}
+
+
+def exactness(E, pname):
+    """How the (expanded) expression relates to parameter ``pname``: 'exact' (the parameter, at most converted by
+    utf8/bytes), 'lossy' (the parameter after a many-to-one normalisation: stripping, case folding, replacing,
+    slicing - different inputs give the same bytes), or 'unknown'."""
+    s_ = strip_wrappers(E)
+    if isinstance(s_, ast.Name) and base_id(s_) == pname:
+        return "exact"
+    if not any(isinstance(x, ast.Name) and base_id(x) == pname for x in ast.walk(E)):
+        return "unknown"
+    cur = s_
+    lossy = False
+    while True:
+        cur = strip_wrappers(cur)
+        if isinstance(cur, ast.Call) and isinstance(cur.func, ast.Attribute) and cur.func.attr in NORMALISING:
+            lossy, cur = True, cur.func.value
+        elif isinstance(cur, ast.Subscript) and isinstance(cur.slice, ast.Slice):
+            lossy, cur = True, cur.value
+        else:
+            break
+    if lossy and isinstance(cur, ast.Name) and base_id(cur) == pname:
+        return "lossy"
+    return "unknown"
+
+
 def _default_of(fi, pname):
     a = fi.node.args
     pos = a.posonlyargs + a.args
@@ -698,6 +730,10 @@ def check_pass_through(ck, caller, callee):
             if not ok and p_ not in mine and isinstance(E, ast.Constant):
                 dflt = _default_of(callee, p_)
                 ok = isinstance(dflt, ast.Constant) and dflt.value == E.value and type(dflt.value) is type(E.value)  # explicit default
+            if not ok and p_ in mine and exactness(rd.expand(a, node), p_) == "lossy":
+                ck.ob("C23.pass-through", caller, c, False, "%s(...) is given the caller's '%s' exactly (converted by utf8() at most): after stripping / case folding / replacing / slicing, different inputs verify as the same value (got %s)"
+                      % (callee.name, p_, q.unparse(rd.expand(a, node))[:60]), construct="%s(%s lossy)" % (callee.name, p_))
+                continue
             if not ok and not (isinstance(E, ast.Constant) or (isinstance(E, ast.Name) and (base_id(E) in mine or base_id(E) in cparams))):
                 raise AnalysisError("%s: cannot establish what %s receives for '%s' (%s)" % (caller.qualname, callee.name, p_, q.unparse(E)[:60]))
             ck.ob("C23.pass-through", caller, c, ok, "%s(...) receives the caller's own '%s' for its parameter '%s' (got %s)" % (callee.name, p_, p_, q.unparse(E)[:60]), construct="%s(%s=...)" % (callee.name, p_))
@@ -909,6 +945,10 @@ def check_tables_parts(ck, cx, r, m, P, ts_op, codec, tab):
     if sp is None and isinstance(whole, ast.Call) and isinstance(whole.func, ast.Attribute) and whole.func.attr in ("split", "rsplit") and len(whole.args) == 2:
         raise AnalysisError("%s: split with a maxsplit argument is not modelled" % fi.qualname)
     ck.need(sp is not None, "%s: the parts are not the result of <input>.split(SEP)" % fi.qualname)
+    ex = exactness(sp[0], "value")
+    if ex == "unknown":
+        raise AnalysisError("%s: cannot establish that the text that is split (%s) is the input value" % (fi.qualname, q.unparse(sp[0])[:60]))
+    ck.ob("C23.fields-agree", fi, r.ast, ex == "exact", "the text that is split and verified is the input value exactly (no stripping / case folding / replacing before the MAC check)", construct="exact input")
     ck.ob("C23.fields-agree", fi, r.ast, not truncated, "all parts of the split input are accounted for (the fields are not taken from a truncating slice, which would ignore anything appended to a signed value)",
           construct="whole split")
     want = {role: i for i, role in enumerate(tab["roles"]) if role in pos}
@@ -1154,6 +1194,11 @@ def _feed_of(e, params, loopvars):
 
 
 def _iter_source(it, params):
+    if isinstance(it, ast.Call) and isinstance(it.func, ast.Name) and it.func.id == "map" and len(it.args) == 2 and isinstance(it.args[0], ast.Name) and it.args[0].id in CODEC_WRAPPERS_:
+        return _iter_source(it.args[1], params)  # map(utf8, parts): every element, converted only
+    if isinstance(it, (ast.GeneratorExp, ast.ListComp)) and len(it.generators) == 1 and not it.generators[0].ifs and isinstance(it.generators[0].target, ast.Name) \
+            and isinstance(_peel_bytes(it.elt), ast.Name) and _peel_bytes(it.elt).id == it.generators[0].target.id:
+        return _iter_source(it.generators[0].iter, params)  # (utf8(p) for p in parts)
     if isinstance(it, ast.Name) and it.id in params:
         return ("whole", it.id)
     if isinstance(it, ast.Subscript) and isinstance(it.value, ast.Name) and it.value.id in params:
@@ -1264,9 +1309,16 @@ def check_get_version(ck, fi):
     # 2. path-sensitive result
     rets = ret_nodes(fi)
     var = None
+    def arms(e, conds=()):
+        """(extra conditions, value) for every arm of a (nested) conditional expression"""
+        if isinstance(e, ast.IfExp):
+            return arms(e.body, conds + ((e.test, True),)) + arms(e.orelse, conds + ((e.test, False),))
+        return [(conds, e)]
+
     for r in rets:
-        if isinstance(r.ast.value, ast.Name):
-            var = r.ast.value.id
+        for _c, a_ in arms(r.ast.value) if r.ast.value is not None else []:
+            if isinstance(a_, ast.Name):
+                var = a_.id
     cfg = fi.cfg
 
     def transfer(n, val):
@@ -1282,15 +1334,19 @@ def check_get_version(ck, fi):
     seen = explore(cfg, ("unset", None), transfer, lambda t: var is not None and var in {x.id for x in ast.walk(ast.parse(t, mode="eval")) if isinstance(x, ast.Name)}, exc_effect=False)
     n_states = 0
     for r in rets:
-        for facts, val in sorted(seen.get(r.id, ()), key=repr):
+        for facts, val0 in sorted(seen.get(r.id, ()), key=repr):
+          for extra, arm in arms(r.ast.value):
             n_states += 1
-            if isinstance(r.ast.value, ast.Constant):
-                val = ("const", r.ast.value.value)
+            val = val0
+            if isinstance(arm, ast.Constant):
+                val = ("const", arm.value)
+            elif not (isinstance(arm, ast.Name) and arm.id == var):
+                raise AnalysisError("_get_version: returns %s, which the rule cannot relate to the parsed number" % q.unparse(arm)[:60])
             kind, v = val
             if kind == "const":
                 ck.ob("C23.version-detect", fi, r.ast, v == 1, "without an explicit version number the value is format 1 (path result: %r)" % (v,), construct="fallback %r" % (v,))
             elif kind == "parsed":
-                conds = [(ast.parse(t, mode="eval").body, pol) for t, pol in facts]
+                conds = [(ast.parse(t, mode="eval").body, pol) for t, pol in facts] + [(e_, p_) for e_, p_ in extra]
                 allowed = set()
                 try:
                     for k in list(range(1, 12000)) + [10 ** 6, 10 ** 9, 10 ** 12]:
@@ -1641,6 +1697,8 @@ MUTANTS = [
     ("v2 decoder refuses names longer than 64 bytes", _in("_decode_signed_value_v2", replace_expr(lambda n: isinstance(n, ast.Compare) and "name_field" in ast.unparse(n), lambda n: parse_expr("name_field != utf8(name) or len(name_field) > 64"))), "C23.fields-agree"),
     ("seeded C23-adv4: raw digests compared (hex case of the signature ignored)", _in("_decode_signed_value_v2", replace_expr(lambda n: isinstance(n, ast.Call) and q.call_attr(n) == "compare_digest", lambda n: ast.Call(func=n.func, args=[ast.Call(func=parse_expr("binascii.unhexlify"), args=[a], keywords=[]) for a in n.args], keywords=[]))), "C23.mac-gate"),
     ("encoder's length prefix off by one", _in("create_signed_value", replace_expr(lambda n: isinstance(n, ast.Call) and isinstance(n.func, ast.Name) and n.func.id == "len" and ast.unparse(n) == "len(s)", lambda n: parse_expr("len(s) + 1"))), "C23.fields-agree"),
+    ("seeded C23-adv6: input stripped of blanks and quotes before verification", _in("decode_signed_value", replace_stmt(lambda st: isinstance(st, ast.Assign) and ast.unparse(st.value) == "utf8(value)", lambda st: [parse_stmt("value = utf8(value).strip(b' \\t\"')")])), "C23.pass-through"),
+    ("v1 decoder splits the lower-cased input", _in("_decode_signed_value_v1", replace_expr(lambda n: isinstance(n, ast.Call) and q.call_attr(n) == "split", lambda n: parse_expr("utf8(value).lower().split(b'|')"))), ("C23.fields-agree", "C23.mac-gate")),
     ("dispatch: v1 decoder called for version 2 values too", _in("decode_signed_value", replace_expr(lambda n: isinstance(n, ast.Compare) and ast.unparse(n) == "version == 1", lambda n: parse_expr("version <= 2"))), "C23.dispatch"),
 ]
 
